@@ -28,7 +28,7 @@ Theorem every_record_has_a_guarded_writer :
   forallb (fun s => match s with (_, _, attr, _, _) =>
      existsb (fun g => match g with (a, _, _, _, _) => String.eqb a attr end) record_guards end)
     record_specs = true /\
-  length record_guards = length record_specs.
+  List.length record_guards = List.length record_specs.
 Proof. repeat split; vm_compute; reflexivity. Qed.
 
 (* the model attribute each writer stores (what Sim.obs observes) *)
